@@ -703,7 +703,16 @@ def contains(run, item, cont, node):
     if isinstance(ty, TSet):
         return z3.Select(ty.has(cont.t), run.coerce(item, ty.k).t)
     if isinstance(ty, TSeq):
-        return z3.Contains(cont.t, z3.Unit(run.coerce(item, ty.elem).t))
+        x = run.coerce(item, ty.elem).t
+        r = z3.Contains(cont.t, z3.Unit(x))
+        if not run.spec and ty.elem is not TStr:
+            # element-wise reading of membership (a consequence of the definition of `contains` on sequences; spares the
+            # solvers the step from seq.contains to positions): a witness position if it holds, no position otherwise
+            k = z3.FreshConst(z3.IntSort(), "mem_at")
+            a = z3.FreshConst(z3.IntSort(), "a")
+            run.assume(z3.Implies(r, z3.And(0 <= k, k < z3.Length(cont.t), cont.t[k] == x)))
+            run.assume(z3.Implies(z3.Not(r), z3.ForAll([a], z3.Implies(z3.And(0 <= a, a < z3.Length(cont.t)), cont.t[a] != x))))
+        return r
     raise err(f"'in' on {ty}")
 
 
